@@ -36,7 +36,9 @@ Definition decode_ev (e : string * string) : ainstr :=
 Definition decode_skel (l : list (string * string)) : list ainstr := map decode_ev l.
 
 (* the code in /repo now, and the code of the pinned snapshot (gCid += 1; return ..gCid) *)
-Definition repo_skel : list ainstr := decode_skel logger_WithContext_skel.
+(* evaluated when this file is compiled (i.e. after every regeneration), so that the extracted
+   model does not contain Coq strings *)
+Definition repo_skel : list ainstr := Eval vm_compute in decode_skel logger_WithContext_skel.
 Definition old_skel : list ainstr := [ILoad; IStoreInc; IRetLoad].
 
 Record athread := { acode : list ainstr; areg : Z }.
@@ -70,7 +72,7 @@ Definition astep (s : astate) (i : nat) : astate :=
     end
   end.
 
-Definition arun : astate -> list nat -> astate := run astep.
+Definition arun : astate -> list nat -> astate := srun astep.
 
 (* thread k performs [nth k counts] allocations, one after the other *)
 Definition athread_of (sk : list ainstr) (n : nat) : athread :=
@@ -99,18 +101,26 @@ Fixpoint skel_eqb (a b : list (string * string)) : bool :=
   | (x1, x2) :: a', (y1, y2) :: b' => String.eqb x1 y1 && String.eqb x2 y2 && skel_eqb a' b'
   | _, _ => false
   end.
-Definition alias_skel_ok : bool :=
+Definition alias_skel_ok : bool := Eval vm_compute in
   skel_eqb logger_AliasContext_skel
     [("source_cid", "ret_source_cid"); ("no_source_cid", "call_WithContext")]%string.
 
 Definition alias_source_id (source : option (option Z)) : option Z :=
   match source with Some (Some cid) => Some cid | _ => None end.
 
-(* one allocation in a single thread, through the interleaving semantics *)
+(* one allocation in a single thread, through the interleaving semantics; returns the new
+   counter value and the id *)
 Definition alloc1 (sk : list ainstr) (g : Z) : Z * option Z :=
   let s := arun {| ag := g; alk := None; aths := [{| acode := sk; areg := 0 |}]; alog := [] |}
                 (repeat 0%nat (length sk)) in
   (ag s, match alog s with (_, id) :: _ => Some id | [] => None end).
+
+(* AliasContext(parent, source) *)
+Definition alias_context (sk : list ainstr) (g : Z) (source : option (option Z)) : Z * option Z :=
+  match alias_source_id source with
+  | Some cid => (g, Some cid)
+  | None => alloc1 sk g
+  end.
 
 (* ------------------------------------------------------------------ Part B: lines *)
 Definition bstr (s : string) : bytes := map N_of_ascii (list_ascii_of_string s).
@@ -176,11 +186,15 @@ Definition output (lab ts s : bytes) : bytes :=
   lab ++ ts ++ sp :: s ++ (if ends_nl s then [] else [nl]).
 
 (* level: 0 info, 1 trace, 2 warn, 3 error (labels regenerated from logger.go) *)
+Definition label_info : bytes := Eval vm_compute in bstr logger_logInfoLabel_str.
+Definition label_trace : bytes := Eval vm_compute in bstr logger_logTraceLabel_str.
+Definition label_warn : bytes := Eval vm_compute in bstr logger_logWarnLabel_str.
+Definition label_error : bytes := Eval vm_compute in bstr logger_logErrorLabel_str.
 Definition label (lvl : Z) : bytes :=
-  if lvl =? 0 then bstr logger_logInfoLabel_str
-  else if lvl =? 1 then bstr logger_logTraceLabel_str
-  else if lvl =? 2 then bstr logger_logWarnLabel_str
-  else bstr logger_logErrorLabel_str.
+  if lvl =? 0 then label_info
+  else if lvl =? 1 then label_trace
+  else if lvl =? 2 then label_warn
+  else label_error.
 
 (* the single Write a logging call performs on its level's writer *)
 Definition println_line (lvl : Z) (ts : bytes) (pid : Z) (c : lctx) (args : list bytes) : bytes :=
@@ -202,7 +216,7 @@ Definition lstep (ts : bytes) (pid : Z) (s : lstate) (i : nat) : lstate :=
   | Some (c :: rest) => {| lths := upd i rest (lths s); lwrites := (i, call_line ts pid c) :: lwrites s |}
   | _ => s
   end.
-Definition lrun ts pid : lstate -> list nat -> lstate := run (lstep ts pid).
+Definition lrun ts pid : lstate -> list nat -> lstate := srun (lstep ts pid).
 
 (* ------------------------------------------------------------------ Part C: harness interface *)
 Module ZOrder <: TotalLeBool.
@@ -221,7 +235,7 @@ Fixpoint adj_dups (l : list Z) : Z :=
 Definition count_dups (l : list Z) : Z := adj_dups (ZSort.sort l).
 
 (* timestamp placeholder: the harness zeroes the digits of the real timestamp *)
-Definition ts0 : bytes := bstr "0000/00/00 00:00:00.000000".
+Definition ts0 : bytes := Eval vm_compute in bstr "0000/00/00 00:00:00.000000".
 
 Fixpoint slot_get (k : Z) (m : list (Z * option Z)) : option (option Z) :=
   match m with [] => None | (k', v) :: r => if k =? k' then Some v else slot_get k r end.
@@ -248,13 +262,9 @@ Fixpoint seq_ops (pid g : Z) (slots : list (Z * option Z)) (ops : list sx) : lis
         end
     | SL [SZ 1; SZ slot; SZ src] =>                            (* slot := AliasContext(bg, slots[src]) *)
         if negb alias_skel_ok then bad_case :: seq_ops pid g slots rest else
-        match alias_source_id (slot_get src slots) with
-        | Some cid => SL [SZ 1; SZ cid] :: seq_ops pid g ((slot, Some cid) :: slots) rest
-        | None =>
-            match alloc1 repo_skel g with
-            | (g', Some id) => SL [SZ 1; SZ id] :: seq_ops pid g' ((slot, Some id) :: slots) rest
-            | (g', None) => bad_case :: seq_ops pid g' slots rest
-            end
+        match alias_context repo_skel g (slot_get src slots) with
+        | (g', Some id) => SL [SZ 1; SZ id] :: seq_ops pid g' ((slot, Some id) :: slots) rest
+        | (g', None) => bad_case :: seq_ops pid g' slots rest
         end
     | SL [SZ 3; SZ slot] =>                                    (* slot := a context without id *)
         SL [SZ 3] :: seq_ops pid g ((slot, None) :: slots) rest
@@ -263,8 +273,10 @@ Fixpoint seq_ops (pid g : Z) (slots : list (Z * option Z)) (ops : list sx) : lis
         | None => bad_case :: seq_ops pid g slots rest
         | Some args =>
             let c := {| l_lvl := lvl; l_fn := fn; l_ctx := ctx_of kind ref slots; l_args := args |} in
-            (* level 4: package-level Info after Switch writes to ioutil.Discard *)
-            SL [SZ 2; SB (if lvl =? 4 then [] else call_line ts0 pid c)] :: seq_ops pid g slots rest
+            (* level 4 (any level outside 0..3): package-level Info as Switch leaves it writes
+               to ioutil.Discard *)
+            SL [SZ 2; SB (if (lvl <? 0) || (3 <? lvl) then [] else call_line ts0 pid c)]
+              :: seq_ops pid g slots rest
         end
     | _ => bad_case :: seq_ops pid g slots rest
     end
